@@ -39,3 +39,6 @@ ASSUMPTIONS = [
 
 def worker_env(stripe):
     return {"NUMBA_THREADING_LAYER": "omp" if stripe % 2 else "workqueue", "NUMBA_NUM_THREADS": "16"}
+
+# dimensions added in seeded rounds 6 and 7
+PROBES = list(PROBES) + ["extreme-aspect-ratio:sim", "extreme-aspect-ratio:compiled"]
